@@ -32,6 +32,20 @@ UNIT = {
         {"kind": "fn", "file": CL, "name": "enum_val_boolean", **CU, "ret": "r",
          "subst": [("unsafe {", "{", 1, "R20")],
          "ensures": ["r == (if ffi_cursor_kind(self.x) == CXCursor_EnumConstantDecl { Some(ffi_enum_value(self.x) != 0) } else { None })"]},
+        {"kind": "enum", "file": "bindgen/ir/enum_ty.rs", "name": "EnumVariantValue", "prefix": "#[derive(Copy, Clone, PartialEq, Eq, Structural)]"},
+        # Enum::from_ty (inside its cursor visitor): which getter supplies an enumerator's value (let-statement, R18)
+        {"kind": "fn", "file": "bindgen/ir/enum_ty.rs", "name": "enum_value_of", "impl": r"^impl Enum$", "ret": "r",
+         "closure": {"enclosing": "from_ty", "anchor": "let value = if is_bool {", "nth": 0, "stmt": "let",
+                     "signature": "fn enum_value_of(cursor: &Cursor, is_bool: bool, is_signed: bool) -> (r: Option<EnumVariantValue>)",
+                     "prefix": "{", "suffix": "; value }"},
+         "subst": [(r"re:cursor\.enum_val_(\w+)\(\)\.map\(EnumVariantValue::(\w+)\)", r"opt_map_\2(cursor.enum_val_\1())", 3, "R7 Option::map with an enum constructor")],
+         "ensures": [
+             # C05: "Enumerators keep their values": a bool enum its truth value, a signed enum the signed value, an unsigned
+             # enum the UNSIGNED value (all 64 bits)
+             "ffi_cursor_kind(cursor.x) != CXCursor_EnumConstantDecl ==> r.is_none()",
+             "ffi_cursor_kind(cursor.x) == CXCursor_EnumConstantDecl ==> r == Some(if is_bool { EnumVariantValue::Boolean(ffi_enum_value(cursor.x) != 0) } "
+             "else if is_signed { EnumVariantValue::Signed(ffi_enum_value(cursor.x)) } else { EnumVariantValue::Unsigned(ffi_enum_value_unsigned(cursor.x)) })",
+         ]},
         # the integer-literal arm of <Var as CodeGenerator>::codegen (block, R18): the literal denotes the value
         # in the signedness of the variable's C type (an unsigned value carried as i64 is re-read as u64)
         {"kind": "fn", "file": "bindgen/codegen/mod.rs", "name": "var_int_arm", "impl": r"^impl CodeGenerator for Var$", "ret": "r",
